@@ -153,6 +153,64 @@ pub fn probe(s: &HState, ctx: &mut Ctx) {
                 ctx.outcome(format!("genuine-{}-rejected", gen.kind));
                 continue;
             };
+            // a provider error surfaced from storage: every storage call that processing the
+            // genuine message makes is failed once; the message is then rejected although it is
+            // authentic, the state must be what it was, and the same message must be accepted
+            // once the storage works again, with the twin's result
+            let n_calls = stores::with_fork(|| {
+                stores::peek(m as u32, |st| st.reset_calls());
+                let mut g = w.g(m).clone();
+                let _ = g.process_incoming_message_with_time(gen.msg.clone(), time(w.clock));
+                stores::peek(m as u32, |st| st.calls.len())
+            });
+            for k in 0..n_calls {
+                stores::with_fork(|| {
+                    stores::peek(m as u32, |st| {
+                        st.reset_calls();
+                        st.fail_calls.insert(k);
+                    });
+                    let mut g = w.g(m).clone();
+                    let pre = effective(&g, m as u32);
+                    ctx.eval();
+                    let r = g.process_incoming_message_with_time(gen.msg.clone(), time(w.clock));
+                    let failed_call = stores::peek(m as u32, |st| st.calls.iter().find(|c| c.failed).map(|c| format!("{}.{}", c.store, c.op)));
+                    stores::peek(m as u32, |st| st.reset_calls());
+                    let Some(call) = failed_call else { return };
+                    ctx.goal("storage-fault-while-processing");
+                    match r {
+                        Ok(_) => ctx.outcome(format!("storage-fault:{call}:not-surfaced")),
+                        Err(e) => {
+                            ctx.outcome(format!("storage-fault:{call}:rejected:{}", err_name(&e)));
+                            let post = effective(&g, m as u32);
+                            let d = diff(&pre, &post, &[]);
+                            if !d.is_empty() {
+                                ctx.violation_for(
+                                    "C04",
+                                    format!("rejected-message-changed-state|storage-fault:{wname}:{}|{}|{}", gen.kind, err_name(&e), diff_classes(&d)),
+                                    format!("{} rejected a genuine {} because {call} failed ({e:?}) but its state changed in: {d:?}", w.parties[m].name, gen.kind),
+                                );
+                            }
+                            ctx.eval();
+                            match g.process_incoming_message_with_time(gen.msg.clone(), time(w.clock)) {
+                                Ok(_) => {
+                                    let after = effective(&g, m as u32);
+                                    let d = diff(&twin, &after, &[]);
+                                    if !d.is_empty() {
+                                        ctx.violation_for("C04", format!("genuine-after-storage-fault-differs|{wname}:{}|{}", gen.kind, diff_classes(&d)), format!("{}: after {call} failed once the genuine message leads to a different state than for its twin: {d:?}", w.parties[m].name));
+                                    } else {
+                                        ctx.outcome("genuine-after-storage-fault:same-as-twin");
+                                    }
+                                }
+                                Err(e2) => ctx.violation_for(
+                                    "C04",
+                                    format!("genuine-rejected-after-storage-fault|{wname}:{}|{}", gen.kind, err_name(&e2)),
+                                    format!("{}: after {call} failed once the genuine {} is refused with {e2:?}", w.parties[m].name, gen.kind),
+                                ),
+                            }
+                        }
+                    }
+                });
+            }
             let mut follow_up_done = false;
             for (label, mb) in mutants(&bytes, &lay) {
                 let Ok(bad) = MlsMessage::from_bytes(&mb) else {
